@@ -1526,6 +1526,30 @@ func (g *Gen) nestTx(w *World) []TxSpec {
 		}
 	}
 	w.Fault("nest.exec")
+	if m.A >= 0 && g.pct(18) {
+		// a wrapper holding several messages, followed by further plain messages of the same signer:
+		// whoever walks the transaction has to keep both the expansion and what comes after it
+		inner := []MsgSpec{}
+		for i, n := 0, 2+g.R.Intn(2); i < n; i++ {
+			if g.pct(50) {
+				inner = append(inner, MsgSpec{T: "bank.send", A: m.A, B: g.otherActor(m.A), Amt: u64s(uint64(1 + g.R.Intn(1000))), Denom: Native})
+			} else {
+				x := g.customMsg(w)
+				x.A = m.A
+				inner = append(inner, x)
+			}
+		}
+		msgs := []MsgSpec{{T: "authz.exec", A: m.A, Inner: inner}, m}
+		if g.pct(40) {
+			y := g.customMsg(w)
+			y.A = m.A
+			msgs = append(msgs, y)
+		}
+		w.Fault("nest.exec_then_plain")
+		ts := TxSpec{Signer: m.A, Gas: 2 * ampleGas, Msgs: msgs}
+		g.setFeeNested(w, &ts)
+		return []TxSpec{ts}
+	}
 	depth := 1 + g.R.Intn(3)
 	if g.pct(8) {
 		depth = pick(g.R, []int{4, 6, 7, 8, 12})
